@@ -18,6 +18,7 @@ import LinVerif.Lemmas.C16Row
 import LinVerif.Lemmas.C16Valid
 import LinVerif.Lemmas.C16Route
 import LinVerif.Lemmas.C16Escape
+import LinVerif.Lemmas.C16Influx
 import LinVerif.Generated.C16
 
 namespace LinVerif.Props.C16
@@ -451,6 +452,63 @@ theorem appendAll_fresh (clears : Bool) (stale : List Bool) (rows : List Stored)
     · exact key stale 0 rows h
     · exact key [] 0 rows (by simp)
 
+/-! ## the pooled batch object -/
+
+/-- **pooled_batch_independent_of_stale_state**: whatever a BrokerBatchRows taken from the pool still
+holds — any number of slots of earlier requests with arbitrary rows, shard indexes and out-of-range
+marks, any old rowCount — after `reset` and any sequence of TryAppend calls (accepted and rejected
+rows in any order) the rows the request sees are exactly the accepted rows, in order, unmarked, and
+after NewShardGroupIterator's shard assignment they equal those of a never-used batch; so do the
+routed groups and what is written. Nothing of the stale state can reach a later request. -/
+theorem pooled_batch_independent_of_stale_state (b : PBatch) (rs : List (Except Err Stored))
+    (jump : Nat → Nat → Nat) (C : Calc) (sortShard sortTs : List BRow → List BRow) (n : Nat) :
+    let rows := (b.reset.appendMany rs).rows
+    let fresh := appendAll true [] (accepted rs)
+    rows.length = (accepted rs).length ∧
+    (∀ r ∈ rows, r.oor = false) ∧
+    rows.map (fun r => r.row) = accepted rs ∧
+    assignShards jump n rows = assignShards jump n fresh ∧
+    route jump C sortShard sortTs n rows = route jump C sortShard sortTs n fresh := by
+  intro rows fresh
+  have hs : rows.map strip = fresh.map strip := by
+    have := appendMany_cur rs b.reset
+    simpa [PBatch.rows, PBatch.reset, appendAll, rows, fresh] using this
+  have hassign := assignShards_of_strip jump n hs
+  have hfresh_go : ∀ (i : Nat) (l : List Stored),
+      (appendAll.go [] i l).map (fun r => r.row) = l ∧ ∀ r ∈ appendAll.go [] i l, r.oor = false := by
+    intro i l
+    induction l generalizing i with
+    | nil => simp [appendAll.go]
+    | cons x xs ih =>
+      obtain ⟨h1, h2⟩ := ih (i + 1)
+      refine ⟨by simp [appendAll.go, h1], ?_⟩
+      intro r hr
+      simp only [appendAll.go, List.mem_cons] at hr
+      rcases hr with rfl | hr
+      · rfl
+      · exact h2 r hr
+  have hfresh := hfresh_go 0 (accepted rs)
+  have hrow : rows.map (fun r => r.row) = accepted rs := by
+    have h1 : rows.map (fun r => r.row) = (rows.map strip).map (fun t => t.2.1) := by
+      simp [strip, List.map_map, Function.comp_def]
+    have h2 : fresh.map (fun r => r.row) = (fresh.map strip).map (fun t => t.2.1) := by
+      simp [strip, List.map_map, Function.comp_def]
+    rw [h1, hs, ← h2]
+    simpa [fresh, appendAll] using hfresh.1
+  refine ⟨?_, ?_, hrow, hassign, ?_⟩
+  · have := congrArg List.length hrow
+    simpa using this
+  · intro r hr
+    have hmem : strip r ∈ fresh.map strip := hs ▸ List.mem_map_of_mem (f := strip) hr
+    obtain ⟨r', hr', he⟩ := List.mem_map.1 hmem
+    have hoor : r'.oor = false := hfresh.2 r' (by simpa [fresh, appendAll] using hr')
+    have : r.oor = r'.oor := by
+      have := congrArg (fun t => t.2.2) he
+      simpa [strip] using this.symm
+    rw [this, hoor]
+  · unfold route
+    rw [hassign]
+
 /-! ## ties to the regenerated facts -/
 
 /-- the rule order and the conditions of validateMetric the model mirrors -/
@@ -625,6 +683,131 @@ theorem influxUnescapeMetricName_expected : Generated.C16.influxUnescapeMetricNa
 `Err.nanField` / `Err.infField`) rejects the whole line -/
 theorem influxParseFieldFloatBranch_expected : Generated.C16.influxParseFieldFloatBranchSrc =
   "v, err := strconv.ParseFloat(lf, 64) ; if err != nil { return nil, ErrBadFields } ; return toLinSimpleField(unescapedKey, v), nil" := rfl
+
+/-! ## the field section of an influx line: rejected as a whole, or every field stored -/
+
+open LinVerif.InfluxField in
+/-- **influx_line_rejected_or_every_field_stored**: for a line whose field tokens all have a usable key and
+a value that is a literal of a supported type (boolean, integer with i/u suffix, float — the NaN / Inf /
+Infinity spellings are floats), under every strconv meeting `StrconvSpec`, every field-count and
+field-name limit: the line is rejected as a whole, or EVERY token's fields are stored (in order, reserved
+names escaped) and every token contributes at least one field. The drop-and-continue policy of
+`parseFields` can only skip tokens that are not literals of any supported type (strings, junk). -/
+theorem influx_line_rejected_or_every_field_stored (E : Strconv) (hE : StrconvSpec E)
+    (maxFields maxFieldName : Nat) (toks : List (String × String)) (hok : ∀ t ∈ toks, TokenOk E t) :
+    lineFields E maxFields maxFieldName toks = .rejected ∨
+    (lineFields E maxFields maxFieldName toks =
+        .stored ((toks.flatMap (fieldsOf E)).map (fun f => { f with name := sanitizeFieldName f.name })) ∧
+      ∀ t ∈ toks, fieldsOf E t ≠ []) := by
+  unfold lineFields
+  rcases parseFields_all_or_none E hE toks hok with h | ⟨h, hne⟩
+  · left; simp [h]
+  · simp only [h]
+    split_ifs
+    · exact Or.inl rfl
+    · exact Or.inl rfl
+    · exact Or.inl rfl
+    · cases hm : (toks.flatMap (fieldsOf E)).mapM addSimpleField with
+      | none => exact Or.inl rfl
+      | some out =>
+        right
+        refine ⟨?_, hne⟩
+        rw [mapM_addSimpleField _ _ hm]
+
+open LinVerif.InfluxField in
+/-- a non-finite float literal invalidates the line: whatever else the line holds -/
+theorem influx_non_finite_field_rejects_line (E : Strconv) (maxFields maxFieldName : Nat)
+    (pre post : List (String × String)) (k v : String) (x : F)
+    (hf : parseField E k v = .fields (toLinSimpleField k x)) (hx : x.isNaN = true ∨ x.isInf = true) :
+    lineFields E maxFields maxFieldName (pre ++ (k, v) :: post) = .rejected := by
+  have key : ∀ (toks : List (String × String)) (fs : List SField), parseFields E toks = some fs →
+      ∀ t ∈ toks, ∀ f ∈ fieldsOf E t, f ∈ fs := by
+    intro toks
+    induction toks with
+    | nil => intro fs _ t ht; simp at ht
+    | cons a rest ih =>
+      intro fs h t ht f hf'
+      obtain ⟨ak, av⟩ := a
+      simp only [parseFields] at h
+      cases hp : parseField E ak av with
+      | rejectLine => simp [hp] at h
+      | drop =>
+        simp only [hp] at h
+        rcases List.mem_cons.1 ht with rfl | ht'
+        · simp [fieldsOf, hp] at hf'
+        · exact ih fs h t ht' f hf'
+      | fields afs =>
+        simp only [hp] at h
+        cases hr : parseFields E rest with
+        | none => simp [hr] at h
+        | some r =>
+          simp only [hr, Option.map_some, Option.some.injEq] at h
+          subst h
+          rcases List.mem_cons.1 ht with rfl | ht'
+          · simp only [fieldsOf, hp] at hf'
+            exact List.mem_append_left _ hf'
+          · exact List.mem_append_right _ (ih r hr t ht' f hf')
+  unfold lineFields
+  cases hp : parseFields E (pre ++ (k, v) :: post) with
+  | none => rfl
+  | some fs =>
+    simp only
+    have hmem : ∀ f ∈ toLinSimpleField k x, f ∈ fs := by
+      intro f hfm
+      exact key _ fs hp (k, v) (by simp) f (by simpa [fieldsOf, hf] using hfm)
+    have hbad : ∀ f ∈ toLinSimpleField k x, addSimpleField f = none := by
+      intro f hfm
+      have hv : f.value = x := by
+        unfold toLinSimpleField at hfm
+        split_ifs at hfm <;> simp at hfm <;> (try rcases hfm with rfl | rfl) <;> (try subst hfm) <;> rfl
+      unfold addSimpleField
+      rcases hx with hx | hx <;> simp [hv, hx]
+    obtain ⟨f0, hf0⟩ := List.exists_mem_of_ne_nil _ (toLinSimpleField_ne_nil k x)
+    have hnone : fs.mapM addSimpleField = none := by
+      cases hm : fs.mapM addSimpleField with
+      | none => rfl
+      | some out =>
+        exfalso
+        have hall : ∀ f ∈ fs, ∃ g, addSimpleField f = some g := by
+          clear hp hmem
+          induction fs generalizing out with
+          | nil => intro f hf'; simp at hf'
+          | cons a rest ih =>
+            intro f hf'
+            simp only [List.mapM_cons, Option.bind_eq_bind] at hm
+            cases ha : addSimpleField a with
+            | none => simp [ha] at hm
+            | some g =>
+              cases hr : rest.mapM addSimpleField with
+              | none => simp [ha, hr] at hm
+              | some r =>
+                rcases List.mem_cons.1 hf' with rfl | hf''
+                · exact ⟨g, ha⟩
+                · exact ih r hr f hf''
+        obtain ⟨g, hg⟩ := hall f0 (hmem f0 hf0)
+        rw [hbad f0 hf0] at hg
+        cases hg
+    split_ifs <;> simp [hnone]
+
+/-- the classification `parseField` / `toLinSimpleField` / `parseFields` mirror -/
+theorem influxParseField_expected : Generated.C16.influxParseFieldSrc =
+  "if len(value) == 0 { return nil, ErrBadFields } ; unescapedKey := unescapeTag(key) ; if len(unescapedKey) == 0 { return nil, ErrBadFields } ; if len(bytes.TrimSpace(unescapedKey)) == 0 { return nil, ErrBadFields } ; tail := value[len(value)-1] ; switch tail { case 'i', 'I', 'u', 'U': v, err := strconv.ParseInt(strutil.ByteSlice2String(value[0:len(value)-1]), 10, 64) if err != nil { return nil, ErrBadFields } return toLinSimpleField(unescapedKey, float64(v)), nil case 't', 'T': if len(value) == 1 { return []flatSimpleField{{ Name: unescapedKey, Type: flatMetricsV1.SimpleFieldTypeLast, Value: float64(1), }}, nil } return nil, ErrBadFields case 'f', 'F': if len(value) == 1 { return []flatSimpleField{{ Name: unescapedKey, Type: flatMetricsV1.SimpleFieldTypeLast, Value: float64(0), }}, nil } if v, err := strconv.ParseFloat(strutil.ByteSlice2String(value), 64); err == nil && math.IsInf(v, 0) { return nil, ErrInfField } return nil, ErrBadFields default: lf := strutil.ByteSlice2String(value) switch lf { case \"false\", \"False\", \"FALSE\": return []flatSimpleField{{ Name: unescapedKey, Type: flatMetricsV1.SimpleFieldTypeLast, Value: float64(0), }}, nil case \"true\", \"True\", \"TRUE\": return []flatSimpleField{{ Name: unescapedKey, Type: flatMetricsV1.SimpleFieldTypeLast, Value: float64(1), }}, nil default: v, err := strconv.ParseFloat(lf, 64) if err != nil { return nil, ErrBadFields } return toLinSimpleField(unescapedKey, v), nil } }" := rfl
+
+theorem influxToLinSimpleField_expected : Generated.C16.influxToLinSimpleFieldSrc =
+  "switch { case bytes.HasSuffix(key, []byte(\"last\")): return []flatSimpleField{{ Name: key, Type: flatMetricsV1.SimpleFieldTypeLast, Value: value, }} case bytes.HasSuffix(key, []byte(\"first\")): return []flatSimpleField{{ Name: key, Type: flatMetricsV1.SimpleFieldTypeFirst, Value: value, }} case bytes.HasSuffix(key, []byte(\"sum\")): return []flatSimpleField{{ Name: key, Type: flatMetricsV1.SimpleFieldTypeDeltaSum, Value: value, }} default: return []flatSimpleField{ { Name: []byte(string(key) + \"_sum\"), Type: flatMetricsV1.SimpleFieldTypeDeltaSum, Value: value, }, { Name: []byte(string(key) + \"_last\"), Type: flatMetricsV1.SimpleFieldTypeLast, Value: value, }, } }" := rfl
+
+theorem influxParseFields_expected : Generated.C16.influxParseFieldsSrc =
+  "WalkBeforeComma: { if startAt >= endAt-1 { if len(fields) == 0 { return fields, ErrBadFields } return fields, nil } commaAt := walkToUnescapedChar(buf, ',', startAt, isEscaped) equalAt := walkToUnescapedChar(buf, '=', startAt, isEscaped) if equalAt <= startAt || equalAt+1 >= endAt { return fields, ErrBadFields } boundaryAt := endAt if commaAt > 0 && commaAt <= endAt { boundaryAt = commaAt } if equalAt+1 >= boundaryAt { return fields, ErrBadFields } // move to next field pair var ( parsedFields []flatSimpleField ) parsedFields, err = parseField(buf[startAt:equalAt], buf[equalAt+1:boundaryAt]) switch { case err == nil: fields = append(fields, parsedFields...) case errors.Is(err, ErrInfField): return nil, err default: influxIngestionStatistics.DroppedFields.Incr() } startAt = boundaryAt + 1 goto WalkBeforeComma }" := rfl
+
+/-- the pooled batch object: `PBatch.reset`, `PBatch.tryAppend`, `PBatch.rows` -/
+theorem batchReset_expected : Generated.C16.batchResetSrc = "br.rowCount = 0" := rfl
+theorem batchTryAppend_expected : Generated.C16.batchTryAppendSrc =
+  "if len(br.rows) <= br.rowCount { br.rows = append(br.rows, BrokerRow{}) } ; br.rows[br.rowCount].IsOutOfTimeRange = false ; if err := appendFunc(&br.rows[br.rowCount]); err != nil { return err } ; br.rowCount++ ; return nil" := rfl
+theorem batchRows_expected : Generated.C16.batchRowsSrc = "return br.rows[:br.rowCount]" := rfl
+theorem batchLen_expected : Generated.C16.batchLenSrc = "return br.rowCount" := rfl
+theorem batchRelease_expected : Generated.C16.batchReleaseSrc = "brokerBatchRowsPool.Put(br)" := rfl
+theorem fromBlock_expected : Generated.C16.fromBlockSrc =
+  "row.buffer = encoding.MustCopy(row.buffer, block) ; size := flatbuffers.GetSizePrefix(row.buffer, 0) ; partition := row.buffer[flatbuffers.SizeUOffsetT : flatbuffers.SizeUOffsetT+size] ; row.m.Init(partition, flatbuffers.GetUOffsetT(partition))" := rfl
 
 /-- The variant of KeyValues.Less the code has selects the variant of `less` the driver runs
 (`Generated.C16.lessTieBreakOnValue`); the variant of the append path selects `appendAll`'s `clears`
